@@ -11,21 +11,22 @@ from ..facets.pred import Pred
 from ..ir import walk
 from ..loader import AnalysisError
 from .c11 import equivariance
-from .common import ANT_MOD, RADIO_MOD, call_args, ext_name, is_ext_call, scatter_chain
+from .common import ANT_MOD, RADIO_MOD, attr, call_args, ext_name, is_ext_call, scatter_chain
 from .entries import EntryRuns
 
 EXPLANATION = (
     "Decided: R20.1 the SNR is homogeneous of degree 1 in the field array and degree 1/2 in the antenna "
-    "count; each in-place update of the field multiplies it by a factor that does not contain the field "
-    "(so the field is linear in shower energy); R20.2 the field is non-zero exactly for 0 <= altDec <= 10 km: "
-    "it is multiplied by the boolean range mask and every later update is a store under that same mask; "
-    "R20.3 the bin width is the same 10 MHz constant in the SNR and noise helpers, centres are "
+    "count; the final field is linear in the table field on every configuration path (store-to-load forwarding "
+    "through the masked updates, whatever their spelling); R20.2 the field is non-zero exactly for 0 <= altDec <= "
+    "10 km: it is multiplied by the boolean range mask and every later update is a store under that same mask; "
+    "R20.3 [value graph] the bin width is the same 10 MHz constant in the SNR and noise helpers, centres are "
     "arange(low, high, df) + df/2, the field bins are the table rows with low <= centre <= high, and [data "
     "audit] the shipped waveform table has centres 5, 15, ... identical for all rows; R20.4 order "
     "independence (population typing, no positional use, no batch reduction) for the radio stage and the "
-    "SNR; R20.5 the field is scaled by showerEnergy/10 (100 PeV -> 1e18 eV) and by |D(525 km)/D(h_det)| with "
-    "the same distance function and otherwise identical arguments. NOT decided: finiteness for every "
-    "event, actual values."
+    "SNR; R20.5 on every configuration path the final field of a selected event is (table field) x showerEnergy "
+    "x |D(525 km)/D(h_det)| x factors containing none of the three (exactly one power of each; constant factors "
+    "such as the 1/10 unit conversion are not pinned), both distances from the same function with otherwise "
+    "identical arguments. NOT decided: finiteness for every event, actual values."
 )
 
 
@@ -54,22 +55,37 @@ def run(ck, ctx):
               r1.value, "calculate_snr", f"degree {dN}")
     ck.guard(r201, "R20.1")
 
-    # ---------------------------------------------------------------- field updates
+    # ---------------------------------------------------------------- the field as a function of the event
     def field():
+        import itertools
         r1 = R.runs["EASRadio.__call__"][0]
         func = "EASRadio.__call__"
         res = I.snapshot(r1.value, r1.st)
         ins = r1.inputs
-        base, chain = scatter_chain(_strip_phi_updates(res))
-        # all alternatives (ionosphere on / off ...) are checked: collect every Scatter in the cone created in the stage
-        scs = [n for n in walk([res]) if n.op == "Scatter" and n.fn is not None and n.fn.qualname == func and
-               n.attr in (None, "Mult", "Div")]
-        tops = [n for n in scs if _is_field_update(n)]
-        ck.floor("R20.5", len(tops), 3, "in-place updates of the field array")
+        # every version of the returned array: masked stores on one root array, along every configuration branch
+        stores, roots, seen, stack = [], [], set(), [res]
+        while stack:
+            x = stack.pop()
+            if id(x) in seen:
+                continue
+            seen.add(id(x))
+            if x.op == "Phi":
+                stack += [x.args[1], x.args[2]]
+            elif x.op == "Scatter":
+                stores.append(x)
+                stack.append(x.args[0])
+            else:
+                roots.append(x)
+        ck.floor("R20.5", len(stores), 1, "masked stores into the field array")
+        ck.ob("R20.2", "all versions of the returned field derive from one array", len(roots) == 1, res, func,
+              f"{len(roots)} root array(s)")
+        if len(roots) != 1 or not stores:
+            return
+        root = roots[0]
         # R20.2: range mask
         pr = Pred(I)
         alt = ins["altDec"]
-        masks = {g.vn(n.args[1]): n.args[1] for n in tops}
+        masks = {g.vn(n.args[1]): n.args[1] for n in stores}
         ck.ob("R20.2", "every update of the field is a store under one and the same mask", len(masks) == 1, res, func,
               f"{len(masks)} distinct mask(s)")
         mask = next(iter(masks.values()))
@@ -77,121 +93,189 @@ def run(ck, ctx):
         e = pr.equivalent(pr.formula(mask), want)
         ck.ob("R20.2", "the field is computed exactly for 0 <= altDec <= 10 km", bool(e and e[0]), mask, func,
               pr.show(pr.formula(mask))[:200])
-        zeroed = [n for n in walk([res]) if n.op == "BinOp" and n.attr == "Mult" and any(g.same(a, mask) for a in n.args)
-                  and n.fn is not None and n.fn.qualname == func]
+        # the root is the table output multiplied by that mask (exact zero outside)
+        prod = root
+        while prod.op == "Attr" and prod.attr == "T":
+            prod = prod.args[0]
         ok_zero = False
-        for z in zeroed:
-            other = [a for a in z.args if not g.same(a, mask)][0]
-            if any(x.op == "Call" and x.extra and x.extra.get("why") == "call-on-object" or
-                   (x.fn is not None and x.fn.qualname == "RadioEFieldParams.__call__") for x in walk([other])):
+        if prod.op == "BinOp" and prod.attr == "Mult":
+            ms = [a for a in prod.args if _same_mask(pr, a, mask)]
+            other = [a for a in prod.args if not _same_mask(pr, a, mask)]
+            if len(ms) == 1 and len(other) == 1 and any(
+                    (x.op == "Call" and x.extra and x.extra.get("why") == "call-on-object") or
+                    (x.fn is not None and x.fn.qualname == "RadioEFieldParams.__call__") for x in walk([other[0]])):
                 ok_zero = True
-        ck.ob("R20.2", "outside the range the field is the product with a False mask (exact zero)", ok_zero, res, func,
-              f"{len(zeroed)} product(s) with the mask")
-        firsts = [n for n in tops if not any(n.args[0] is m or _base_is(n, m) for m in tops if m is not n)]
-        # R20.5 / R20.1: per-update factor
+        ck.ob("R20.2", "outside the range the field is the product with a False mask (exact zero)", ok_zero, root, func,
+              g.show(root, 3))
+        # distance evaluations of this run
         r2 = R.runs["EASRadio.__call__"][1]
         dcalls = [c for c in I.call_log if c[0].qualname == "distance_to_detector" and c[1] and
                   c[1][0].endswith("radio.py") and r1.start_id <= c[3].id < r2.start_id]
         Ds = [c[3] for c in dcalls]
-        opaque = {n.id for n in Ds} | {ins["showerEnergy"].id}
-        seen_energy = seen_dist = 0
-        for sc in tops:
-            b, idx, val = sc.args
-            Pq = PolyFacet(I, opaque_ids=opaque | {_root_array(b).id}, gather_transparent=True)
-            vb = Pq.of(b)
-            vv = Pq.of(val)
-            try:
-                ratio = Pq.div(Val(vv.rat), Val(vb.rat))
-            except ZeroDivisionError:
+        ck.ob("R20.5", "exactly two distance evaluations (reference orbit, detector)", len(Ds) == 2, res, func,
+              f"{len(Ds)} call(s)")
+        if len(Ds) != 2:
+            return
+        ref = [D for D in Ds if _is_ref_alt(I, dcalls, D, r1.st)]
+        det = [D for D in Ds if not _is_ref_alt(I, dcalls, D, r1.st)]
+        params = [a.arg for a in dcalls[0][0].node.args.args]
+        same = all(g.same(I.res(dcalls[0][2][p], r1.st), I.res(dcalls[1][2][p], r1.st)) for p in params if p != "z_det")
+        ck.ob("R20.5", "both distances come from the same function with identical arguments except the altitude",
+              same, dcalls[0][3], func, ", ".join(params))
+        zs = [I.res(c[2]["z_det"], r1.st) for c in dcalls]
+        okz = len(ref) == 1 and any(z.op == "Cfg" and z.attr == ("detector", "initial_position", "altitude") for z in zs)
+        ck.ob("R20.5", "one distance is for the 525 km reference, the other for the configured detector altitude", okz,
+              dcalls[0][3], func, " / ".join(g.show(z, 1) for z in zs))
+        if not okz:
+            return
+        # final value of the selected events on every configuration path
+        conds = {}
+        for x in walk([res]):
+            if x.op == "Phi" and x.fn is not None and x.fn.qualname == func:
+                c = x.args[0]
+                while c.op == "UnaryOp" and c.attr == "Not":
+                    c = c.args[0]
+                conds.setdefault(g.vn(c), c)
+        if len(conds) > 6:
+            raise AnalysisError(f"{len(conds)} branch conditions in the field computation")
+        final = I.mk("Subscript", (res, mask))
+        E = ins["showerEnergy"]
+        opaque = {root.id, E.id, ref[0].id, det[0].id}
+        seen_paths = {}
+        for combo in itertools.product((True, False), repeat=len(conds)):
+            P = PolyFacet(I, opaque_ids=opaque, gather_transparent=True)
+            P.forward_loads = True
+            P.assume = dict(zip(conds, combo))
+            v = P.of(final)
+            shown = P.show(v)
+            if shown in seen_paths:
                 continue
-            root = _root_array(b)
-            has_field = any(Pq.atom_info[a]["kind"] == "node" and Pq.atom_info[a]["node"] is root
-                            for a in Pq.atoms_in(ratio))
-            ck.ob("R20.1", f"update at {sc.where()} multiplies the field by a factor that does not contain the field "
-                  "(linearity in the field)", not has_field, sc, func, Pq.show(ratio)[:160])
-            env = {"E": Pq.of(ins["showerEnergy"])}
-            if Pq.equal(ratio, Pq.ref("E/10", env)):
-                seen_energy += 1
-            if len(Ds) == 2:
-                for a, b2 in ((Ds[0], Ds[1]), (Ds[1], Ds[0])):
-                    if Pq.equal(ratio, Pq.ref("abs(x/y)", {"x": Pq.of(a), "y": Pq.of(b2)})):
-                        seen_dist += 1
-                        ref_is_num = _is_ref_alt(I, dcalls, a, r1.st)
-                        ck.ob("R20.5", "distance scaling is |D(525 km reference) / D(detector altitude)|", ref_is_num, sc,
-                              func, "numerator is the " + ("reference-orbit" if ref_is_num else "detector") + " distance")
-        ck.ob("R20.5", "the field is scaled exactly once by showerEnergy / 10 (100 PeV -> 1e18 eV)", seen_energy == 1,
-              res, func, f"{seen_energy} such update(s)")
-        ck.ob("R20.5", "the field is scaled exactly once by the distance ratio", seen_dist == 1, res, func,
-              f"{seen_dist} such update(s); {len(Ds)} distance evaluations")
-        if len(dcalls) == 2:
-            params = [a.arg for a in dcalls[0][0].node.args.args]
-            same = all(g.same(I.res(dcalls[0][2][p], r1.st), I.res(dcalls[1][2][p], r1.st)) for p in params if p != "z_det")
-            ck.ob("R20.5", "both distances come from the same function with identical arguments except the altitude",
-                  same, dcalls[0][3], func, ", ".join(params))
-            zs = [I.res(c[2]["z_det"], r1.st) for c in dcalls]
-            okz = any(z.op == "Const" and z.attr == 525.0 for z in zs) and \
-                any(z.op == "Cfg" and z.attr == ("detector", "initial_position", "altitude") for z in zs)
-            ck.ob("R20.5", "one distance is for the 525 km reference, the other for the configured detector altitude", okz,
-                  dcalls[0][3], func, " / ".join(g.show(z, 1) for z in zs))
-        # shower energy enters only through that update
+            seen_paths[shown] = combo
+            label = ", ".join(f"{g.show(conds[k], 2)}={b_}" for k, b_ in zip(conds, combo)) or "always"
+            env = {"F": P.of(root), "E": P.of(E), "x": P.of(ref[0]), "y": P.of(det[0])}
+            try:
+                rest = P.div(v, P.ref("F*(E/10)*abs(x/y)", env))
+            except ZeroDivisionError:
+                rest = None
+            nodes_in = set()
+            if rest is not None:
+                for a_ in P.atoms_in(rest):
+                    nodes_in |= _atom_nodes(P, a_, opaque)
+            bad = [n_ for n_ in (root, E, ref[0], det[0]) if n_.id in nodes_in]
+            ck.ob("R20.5", f"the field of a selected event is (table field) x showerEnergy x |D(525 km)/D(h_det)| x "
+                  f"factors free of all three [{label}]", rest is not None and not bad, final, func,
+                  ("remaining factor: " + P.show(rest)[:200]) if rest is not None else "zero divisor",
+                  construct=f"{func}: field scaling")
+            ck.ob("R20.1", f"the field is linear in the table field (the remaining factor does not contain it) [{label}]",
+                  rest is not None and root.id not in nodes_in, final, func, "")
+        ck.floor("R20.5", len(seen_paths), 1, "configuration paths of the field computation")
         dep = Dep(I)
-        kinds = dep.depends_on(res, ins["showerEnergy"])
+        kinds = dep.depends_on(res, E)
         ck.ob("R20.1", "the field depends on the shower energy (value flow)", "v" in kinds, res, func, str(sorted(kinds)))
     ck.guard(field, "R20.2/R20.5")
 
-    # ---------------------------------------------------------------- R20.3 bins
+    # ---------------------------------------------------------------- R20.3 bins (value graph)
     def bins():
         am = I.module(ANT_MOD)
         dfs = {}
         for fname in ("calculate_snr", "noise_efield_from_range"):
             f = am.functions.get(fname)
             if f is None:
+                raise AnalysisError(f"{fname} not found")
+            fr_in = I.input("freqRange")
+            params = [a.arg for a in f.node.args.args]
+            args = [fr_in if p_ == "freqRange" else I.input(p_, kind="array" if p_ in ("Efield", "freqs") else "float")
+                    for p_ in params]
+            rr = I.run(I.func_node(f), args)
+            if rr.value is None:
+                raise AnalysisError(f"{fname} has no value")
+            cone = list(walk([rr.value]))
+            ars = [n for n in cone if is_ext_call(n, "numpy.arange")]
+            ck.ob("R20.3", f"{fname}: one frequency grid", len({g.vn(a_) for a_ in ars}) == 1, rr.value, fname,
+                  f"{len(ars)} arange call(s)")
+            if not ars:
                 continue
-            for st in ast.walk(f.node):
-                if isinstance(st, ast.Assign) and len(st.targets) == 1 and isinstance(st.targets[0], ast.Name) and \
-                        st.targets[0].id == "df" and isinstance(st.value, ast.Constant):
-                    dfs[fname] = st.value.value
-            ar = [n for n in ast.walk(f.node) if isinstance(n, ast.Assign) and isinstance(n.targets[0], ast.Name) and
-                  n.targets[0].id == "freqs"]
-            okc = len(ar) == 1 and ast.unparse(ar[0].value).replace(" ", "") == "np.arange(freqRange[0],freqRange[1],df)+df/2.0"
-            ck.ob("R20.3", f"{fname}: bin centres are arange(low, high, df) + df/2", okc, (am.relpath, f.node.lineno, 0),
-                  fname, ast.unparse(ar[0].value)[:80] if ar else "")
+            P = PolyFacet(I)
+            for ar in ars:
+                pos, kws = call_args(ar)
+                lo, hi, step = (pos + [None, None, None])[:3]
+                step = kws.get("step", step)
+                okr = lo is not None and hi is not None and lo.op == "Subscript" and lo.args[0] is fr_in and \
+                    lo.args[1].op == "Const" and lo.args[1].attr == 0 and hi.op == "Subscript" and \
+                    hi.args[0] is fr_in and hi.args[1].op == "Const" and hi.args[1].attr == 1
+                dfc = P.of(step).rat.is_const() if step is not None else None
+                ck.ob("R20.3", f"{fname}: the grid runs from the low to the high band edge in constant steps", okr and
+                      dfc is not None, ar, fname, g.show(ar, 3))
+                if dfc is not None:
+                    dfs.setdefault(fname, set()).add(dfc)
+                uses = [n for n in cone if any(a_ is ar for a_ in n.args)]
+                okc = bool(uses) and dfc is not None
+                for u in uses:
+                    if not (u.op == "BinOp" and u.attr == "Add"):
+                        okc = False
+                        continue
+                    other = [a_ for a_ in u.args if a_ is not ar]
+                    okc = okc and len(other) == 1 and P.of(other[0]).rat.is_const() == dfc / 2
+                ck.ob("R20.3", f"{fname}: bin centres are arange(low, high, df) + df/2", okc, uses[0] if uses else ar,
+                      fname, "; ".join(g.show(u, 3) for u in uses[:2]))
         ck.ob("R20.3", "the bin width is the same constant (10 MHz) in the SNR and the noise helper",
-              len(dfs) == 2 and set(dfs.values()) == {10.0}, (am.relpath, 1, 0), "radio_antenna.py", str(dfs))
-        r1 = R.runs["calculate_snr"][0]
-        # value graph: SNR centres
-        ars = [n for n in walk([r1.value]) if is_ext_call(n, "numpy.arange")]
-        P = PolyFacet(I)
-        okv = False
-        for a in ars:
-            pos, _ = call_args(a)
-            if len(pos) == 3 and pos[2].op == "Const" and pos[2].attr == 10.0:
-                okv = True
-        ck.ob("R20.3", "the SNR's frequency grid steps by 10 MHz", okv, r1.value, "calculate_snr",
-              "; ".join(g.show(a, 2) for a in ars[:2]))
-        # field bins: low <= fcenter <= high (inclusive) on the table's centre column
+              len(dfs) == 2 and all(v_ == {Fraction(10)} for v_ in dfs.values()), (am.relpath, 1, 0), "radio_antenna.py",
+              str({k: sorted(map(float, v_)) for k, v_ in dfs.items()}))
+        # field bins: low <= centre <= high (inclusive) on the table's centre column
         rm = I.module(RADIO_MOD)
         ci = rm.classes.get("RadioEFieldParams")
-        call = ci.methods.get("__call__") if ci else None
-        if call is None:
+        if ci is None or "__call__" not in ci.methods:
             raise AnalysisError("RadioEFieldParams.__call__ not found")
-        cuts = [n for n in ast.walk(call.node) if isinstance(n, ast.Assign) and isinstance(n.targets[0], ast.Name)
-                and n.targets[0].id == "cut"]
-        okc = len(cuts) == 1 and ast.unparse(cuts[0].value).replace(" ", "") == \
-            "np.logical_and(fcenter>=self.lowFreq,fcenter<=self.highFreq)"
-        ck.ob("R20.3", "the field bins are the table rows with low <= centre <= high (both inclusive)", okc,
-              (rm.relpath, call.node.lineno, 0), "RadioEFieldParams.__call__", ast.unparse(cuts[0].value)[:90] if cuts else "")
-        fc = [n for n in ast.walk(call.node) if isinstance(n, ast.Assign) and isinstance(n.targets[0], ast.Name)
-              and n.targets[0].id == "fcenter"]
-        ck.ob("R20.3", "bin centres are parameter 0 of every table row", len(fc) == 1 and
-              ast.unparse(fc[0].value).replace(" ", "") == "params[:,:,0]", (rm.relpath, call.node.lineno, 0),
-              "RadioEFieldParams.__call__", ast.unparse(fc[0].value) if fc else "")
-        init = ci.methods.get("__init__")
-        lows = [ast.unparse(n.value).replace(" ", "") for n in ast.walk(init.node) if isinstance(n, ast.Assign) and
-                isinstance(n.targets[0], ast.Attribute) and n.targets[0].attr in ("lowFreq", "highFreq")]
-        ck.ob("R20.3", "the band edges are the configured (low, high) frequencies", sorted(lows) ==
-              ["int(freqRange[0])", "int(freqRange[1])"], (rm.relpath, init.node.lineno, 0), "RadioEFieldParams.__init__",
-              str(lows))
+        fr_in = I.input("freqRange")
+        st = I.new_state()
+        obj = I.construct(ci, [fr_in], {}, st)
+        zz, vv, hh = (I.input(k_, kind="array") for k_ in ("zenith", "view", "h"))
+        r2 = I.run_method(obj, "__call__", [zz, vv, hh], st=st)
+        fnm = "RadioEFieldParams.__call__"
+        if r2.value is None:
+            raise AnalysisError("RadioEFieldParams.__call__ has no value")
+        from ..interp_expr import is_basic_index
+        pr = Pred(I)
+        msk = {}
+        for n in walk([r2.value]):
+            if n.op == "Subscript" and is_basic_index(n.args[1]) is False and n.fn is not None and n.fn.qualname == fnm:
+                m_ = n.args[1]
+                if any(x.op == "Compare" for x in walk([m_])):
+                    msk.setdefault(g.vn(m_), m_)
+        ck.ob("R20.3", "all table parameters are selected with one and the same frequency cut", len(msk) == 1, r2.value,
+              fnm, f"{len(msk)} distinct cut(s)")
+        if len(msk) != 1:
+            return
+        cut = next(iter(msk.values()))
+        f_cut = pr.formula(cut)
+        fcs = {}
+        for key in pr.atoms_of(f_cut):
+            _kind, l, r_ = pr.atoms[key]
+            for x in (l, r_):
+                if x.op == "Subscript" and x.args[1].op == "Tuple" and len(x.args[1].args) == 3:
+                    fcs.setdefault(g.vn(x), x)
+        okfc = len(fcs) == 1
+        fc = next(iter(fcs.values())) if okfc else None
+        last = fc.args[1].args[2] if okfc else None
+        ck.ob("R20.3", "bin centres are parameter 0 of every table row", okfc and last.op == "Const" and last.attr == 0
+              and all(a_.op == "Slice" and all(x.op == "Const" and x.attr is None for x in a_.args)
+                      for a_ in fc.args[1].args[:2]), fc if okfc else cut, fnm, g.show(fc, 3) if okfc else
+              f"{len(fcs)} candidate column(s)")
+        if not okfc:
+            return
+
+        lo_n, hi_n = attr(I, st, obj, "lowFreq"), attr(I, st, obj, "highFreq")
+        ok_edges = lo_n.op == "Call" and hi_n.op == "Call" and is_ext_call(lo_n, "builtins.int") and \
+            is_ext_call(hi_n, "builtins.int") and lo_n.args[1].op == "Subscript" and lo_n.args[1].args[0] is fr_in and \
+            lo_n.args[1].args[1].op == "Const" and lo_n.args[1].args[1].attr == 0 and \
+            hi_n.args[1].op == "Subscript" and hi_n.args[1].args[0] is fr_in and \
+            hi_n.args[1].args[1].op == "Const" and hi_n.args[1].args[1].attr == 1
+        ck.ob("R20.3", "the band edges are the configured (low, high) frequencies", ok_edges, lo_n,
+              "RadioEFieldParams.__init__", f"{g.show(lo_n, 3)} / {g.show(hi_n, 3)}")
+        want = ("and", pr.le(lo_n, fc), pr.le(fc, hi_n))
+        eq = pr.equivalent(f_cut, want)
+        ck.ob("R20.3", "the field bins are the table rows with low <= centre <= high (both inclusive)", bool(eq and eq[0]),
+              cut, fnm, pr.show(f_cut)[:200])
         from ..data_audit import audit_waveform_table
         audit_waveform_table(ck, ctx, "R20.3")
     ck.guard(bins, "R20.3")
@@ -249,3 +333,35 @@ def _is_ref_alt(I, dcalls, D, st):
             z = I.res(c[2]["z_det"], st)
             return z.op == "Const" and z.attr == 525.0
     return False
+
+
+def _same_mask(pr, a, mask):
+    try:
+        e = pr.equivalent(pr.formula(a), pr.formula(mask))
+        return bool(e and e[0]) and a.op in ("Compare", "UnaryOp", "BinOp", "BoolOp", "Call")
+    except Exception:
+        return False
+
+
+def _atom_nodes(P, a, targets):
+    """ids among `targets` that the value of an atom of the polynomial facet depends on (shape-only uses such as
+    x.shape as the size of a random draw do not count)"""
+    info = P.atom_info.get(a, {})
+    n = info.get("node")
+    if n is None or info.get("kind") != "node":
+        return set()
+    if n.id in targets:
+        return {n.id}
+    out, seen, stack = set(), set(), [n]
+    while stack:
+        x = stack.pop()
+        if id(x) in seen:
+            continue
+        seen.add(id(x))
+        if x.id in targets:
+            out.add(x.id)
+            continue
+        if x.op == "Len" or (x.op == "Attr" and x.attr in ("shape", "size", "ndim", "dtype")):
+            continue
+        stack.extend(x.args)
+    return out
